@@ -59,6 +59,12 @@ CHECKS = {
  'C17': ('exhaustive enumeration of monotone step tickers x options x guesses for FindLevel; bounded-exhaustive domain x option lattice for Ticks/Nice against definitional tick sets',
          'FindLevel: all 715 non-increasing count functions on levels -4..4 x Max 0..3 x 121 level-limit pairs x 17 guesses (5.9M calls) against the brute-force lowest admissible level. Ticks/Nice: 12 widths x 9 centres x 6 bases x Max 1..20 x 4 level limits (Linear), 6 x 7 x 5 bases x 2 signs x Max 1..20 x 3 limits (Log): ascending, inside, complete, nice, finest level, major in minor, CountTicks laws, Nice never shrinks / finite / idempotent / ends.',
          'tick-set membership has a 1e-9-width ambiguity zone at the domain ends; Nice Max>=3 clauses asserted where a covering level exists', '4/C17'),
+ 'C07': ('bounded-exhaustive enumeration of user-defined CDF programs (grammar of <=3 ramp/jump/flat pieces) x y lattice on the real generic InvCDF against the exact generalised inverse; exhaustive scripted-random-source enumeration for Rand',
+         'All piece sequences of length<=3 with mass x 3 widths per piece x 3 height splits x 7 shifts x 3 scales x 2 Bounds variants (16k programs), 59 built-in distributions; y in {k/64, 1e-12, 1-1e-12, every jump and flat level +-1 ulp, ends, out of range}; Rand driven by a scripted source over the complete lattice y=k/256 including the skipped y=0, exact Kolmogorov distance of the draws.',
+         'accuracy 1e-9 relative + 1e-12 (+ the rounding noise of the user CDF itself); the statistical KS clause is replaced by an exact distance over a complete lattice', '4/C07'),
+ 'C20': ('stateless model checking of the implementation: cooperative scheduler over statement-level scheduling points injected into a go build -overlay copy of the library, iterative preemption bounding, shared-state write monitor with a commutativity reduction; exhaustive call-sequence enumeration against fresh-process references; separate free-running -race pass',
+         '37-entry call alphabet covering every exported function/method that takes a slice, Sample, graph or distribution. Purity: every entry x 40 (125) fixture variants with deep bitwise snapshots. History independence: all 37^2 (37^3) call sequences, each call compared with its fresh-process result, package-level state (15 variables located by parsing the current sources) hashed. Schedules: f||f for every entry with all schedules of <=1 (2) preemptions at ~1.7k injected scheduling points, all 820 pairs monitored at every point and discharged by commutativity when no step writes shared state (thorough: explored). -race: 16 goroutines x 50 (200) rounds.',
+         'statement-level interleavings under sequential consistency; the -race pass is dynamic detection; map-iteration order is sampled by repetition', '4/C20'),
 # --- end of table ---
 }
 NOT_BUILT = 'check not built yet (work in progress; no claim made)'
